@@ -59,11 +59,13 @@ pub fn gen_big_text(r: &mut Rng) -> String {
             // something interesting placed exactly across a power-of-two offset (block-wise and
             // word-wise scanners): random short lines up to just below 2^k, padding, then a line
             // break / multi-byte character straddling the boundary, then some more lines
-            let k = r.range(3, 16);
+            // 2^3 … 2^16 mostly; now and then up to 2^23 (block-wise scanners with large blocks)
+            let k = if r.chance(1, 8) { r.range(17, 23) } else { r.range(3, 16) };
             let boundary = 1usize << k;
             let e = r.below(3) as usize;
-            while text.len() + 12 < boundary {
-                for _ in 0..r.below(9) {
+            let filler = if boundary > (1 << 17) { 60 } else { 9 };
+            while text.len() + filler as usize + 4 < boundary {
+                for _ in 0..r.below(filler) {
                     text.push('y');
                 }
                 text.push_str(eols[e]);
@@ -85,8 +87,12 @@ pub fn gen_big_text(r: &mut Rng) -> String {
                 text.push_str(if i == 270 { "ü" } else { "y" });
                 text.push_str(eols[(i % 3) as usize]);
             }
-            for _ in 0..66_000 {
-                text.push('z');
+            // one line beyond 2^16 columns — now and then far beyond (2^18 … 2^20 characters), where a
+            // narrow accumulator in a column computation would wrap
+            let n = *r.pick(&[66_000u64, 66_000, 66_000, 300_000, 600_000, 1_200_000]);
+            let unit = if n > 66_000 && r.chance(1, 2) { "é" } else { "z" };
+            for _ in 0..n {
+                text.push_str(unit);
             }
             text.push_str("é\n");
             text.push_str("tail");
